@@ -6,6 +6,7 @@ package sm2_test
 // signatures made by OpenSSL.
 
 import (
+	"math/rand"
 	"bytes"
 	"encoding/hex"
 	"encoding/json"
@@ -45,7 +46,7 @@ func TestVerif_C13_ZA(t *testing.T) {
 		default:
 			n = gen.Uniform(t, "idlenA", 0, 8300)
 		}
-		id := gen.RandBytes(r, n)
+		id := c13ID(t, r, n)
 		id, idShape := gen.Absent(t, "id", id)
 		n = len(id)
 		rec.Tally("id-shape:" + idShape)
@@ -116,7 +117,7 @@ func TestVerif_C13_Wrappers(t *testing.T) {
 		} else {
 			n = gen.Int(t, "idlenU", 0, 80)
 		}
-		id := gen.RandBytes(r, n)
+		id := c13ID(t, r, n)
 		msg := gen.RandBytes(r, gen.Len(t, "msglen", 9000))
 		id, idShape := gen.Absent(t, "id", id)
 		msg, _ = gen.Absent(t, "msg", msg)
@@ -512,4 +513,36 @@ func TestVerif_C13_LargeMessage32Bit(t *testing.T) {
 			vt.Fail(t, rec, "C13:wrappers:verify", "32-bit build: VerifyZa rejects the reference signature of a %d-byte message", n)
 		}
 	}
+}
+
+// c13ID returns an id of n bytes: random content, or (one case in four) content built around the identifier every SM2 deployment
+// knows — the GM/T 0009 default id "1234567812345678": the default id itself, a prefix of it, the default id followed by other
+// bytes, repeated, or with one byte changed. A fast path for "the default id" that recognises it by anything less than its full
+// length and content confuses these.
+func c13ID(t *rapid.T, r *rand.Rand, n int) []byte {
+	if gen.Uniform(t, "id.default-related", 0, 3) != 0 {
+		return gen.RandBytes(r, n)
+	}
+	def := []byte("1234567812345678")
+	var id []byte
+	switch gen.Pick(t, "id.default-shape", "exact", "prefix-of", "followed-by-random", "followed-by-text", "repeated", "one-byte-changed", "preceded-by") {
+	case "exact":
+		id = append(id, def...)
+	case "prefix-of":
+		id = append(id, def[:gen.Uniform(t, "id.pfx", 1, 15)]...)
+	case "followed-by-random":
+		id = append(append(id, def...), gen.RandBytes(r, gen.Uniform(t, "id.sfx", 1, 40))...)
+	case "followed-by-text":
+		id = append(append(id, def...), "@example.com"[:gen.Uniform(t, "id.sfx", 1, 12)]...)
+	case "repeated":
+		for i, k := 0, gen.Uniform(t, "id.rep", 2, 6); i < k; i++ {
+			id = append(id, def...)
+		}
+	case "one-byte-changed":
+		id = append(id, def...)
+		id[gen.Uniform(t, "id.pos", 0, 15)] ^= byte(1 << uint(gen.Uniform(t, "id.bit", 0, 7)))
+	default:
+		id = append(gen.RandBytes(r, gen.Uniform(t, "id.pre", 1, 8)), def...)
+	}
+	return id
 }
